@@ -11,8 +11,8 @@
   `< 2^n`, the known flags, the step counter, mask, observation, `done` and the reward.
 -/
 import ICG.Lemmas.EnvBasic
-namespace ICG
-open Table
+namespace ICG.Env
+open ICG Table
 
 variable {α : Type}
 
@@ -112,8 +112,6 @@ theorem Fresh.exact {compute : Table α → Except Err (Table α)} (hok : Comput
   exact exact_of_compute hok hex hc
 
 /-! ### observables only depend on the rows -/
-
-namespace Env
 
 theorem actionMasks_congr {e1 e2 : Env α} (h : EnvEq e1 e2) : e1.actionMasks = e2.actionMasks := by
   obtain ⟨_, _, ⟨_, hk, _⟩, _, _, _, hex⟩ := h
@@ -251,5 +249,4 @@ theorem env_undo (hok : ComputeOK compute) (hko : KnowledgeOnly compute)
     rw [this]
 
 end undo
-end Env
-end ICG
+end ICG.Env
